@@ -154,4 +154,15 @@ func payloadHas(t *testing.T, path, key string) bool {
 	return ok
 }
 
+// storedKey returns the violation key recorded with a stored case ("" for plain payloads).
+func storedKey(path string) string {
+	var v struct {
+		Key string `json:"key"`
+	}
+	if b, err := os.ReadFile(path); err == nil {
+		json.Unmarshal(b, &v)
+	}
+	return v.Key
+}
+
 var _ = rapid.Check
